@@ -98,6 +98,14 @@ def pool_scenarios(tier):
     out.append(_pool([_bc(1, extend=True), _bc(2, (1,), extend=True)]))
     out.append(_pool([_bc(2, extend=True)]))
     out.append(_pool([_bc(3)], pb=2))
+    # no auxiliary thread at all and the only call panics (a T = 1 benchmark that panics): the panic must still be
+    # caught and reported as an empty entry; alone, before and after broadcasts that use workers
+    out.append(_pool([_bc(0, (0,))]))
+    out.append(_pool([_bc(0, (0,), extend=True)]))
+    out.append(_pool([_bc(0, (0,), extend=True), _bc(1, extend=True)]))
+    out.append(_pool([_bc(1), _bc(0, (0,)), _bc(1)]))
+    out.append(_pool([_bc(0, (0,), bomb=True), _bc(0)]))
+    out.append(_pool([_bc(1, extend=True), _bc(0, (0,), extend=True), _bc(0, extend=True)]))
     # the caller's own call panics with a payload whose destructor panics
     out.append(_pool([_bc(1, (0,), bomb=True), _bc(1)]))
     out.append(_pool([_bc(2, (0,), bomb=True)]))
@@ -266,7 +274,7 @@ prop("C06",
                ["rendezvous_value", "rendezvous_blocks", "rendezvous_disconnect", "rendezvous_two", "barrier_2x2", "barrier_3",
                 "park_token_first", "park_flag_loop", "park_stale_token", "mutex_lazy"]], "timeout": 3000}],
      assumptions=[
-         "thread counts up to 4 workers (loom admits 5 threads); histories of up to 3 broadcasts; larger harnesses preemption-bounded as listed per scenario in coverage.engines[].bounds",
+         "thread counts from 0 (a broadcast without auxiliary threads, with and without a panicking call) up to 4 workers (loom admits 5 threads); histories of up to 3 broadcasts (4 in thorough); larger harnesses preemption-bounded as listed per scenario in coverage.engines[].bounds",
          "std primitives are replaced by facade models (trusted, conformance-tested); plain non-atomic fields of the task block are not race-checked by loom",
      ],
      technique="loom DPOR (stateless exploration of every interleaving, C11 orderings honoured) of the real ThreadPool::broadcast/par_extend; per-execution oracle + loom causality check + liveness registry",
@@ -355,7 +363,7 @@ prop("C16",
      assumptions=[
          "natural_cmp: all 2801 strings of length <= 4 over {0,1,9,a,B,_,e-acute}; transitivity on all triples of the length <= 3 subset (all length <= 4 triples in thorough)",
          "argument labels: 40-label alphabet (22 numeric incl. negatives, floats, integers beyond 2^53 and 2^64; 10 identifiers; 8 odd spellings); lists of length <= 4 (5 thorough) over four 6-7 label pools; mixed numeric / non-numeric lists are checked for permutation, exact reverse and no panic only (the statement defines no order for them)",
-         "sibling sets of <= 3 (4 thorough) nodes over 6 node kinds x 5 names x 3 location layouts; distinct items never share an exact file:line:column",
+         "sibling sets of <= 3 (4 thorough) nodes over 7 node kinds x 6 names x 5 location layouts; a plain module has two items at both ends of the location range (and, as the seventh kind, a nested plain module); distinct items never share an exact file:line:column except in the dedicated tie layout",
          "'kind' is taken as the implementation's leaf / parent split (a generic benchmark is a parent)",
      ],
      technique="bounded-exhaustive enumeration of names, argument labels, argument lists and sibling sets on the real comparators and EntryTree::sort_by_attr; total-preorder axioms on all triples; reference key order",
@@ -500,7 +508,7 @@ prop("C17",
      quick=[{"engine": "Z", "prop": "C17"}],
      thorough=[{"engine": "Z", "prop": "C17", "zoo_tier": "thorough"}],
      assumptions=[
-         "argument kinds of the grammar: array literal, slice const, range, Vec<String>, [&str; N], &[&str], [String; N], Vec<Cow<str>>, [f64; N], chars, a Debug-only type; lengths 0,1,2,3,4,21,30 (the larger ones and several kinds in the thorough zoo only); types x consts in both generic orders",
+         "argument kinds of the grammar: array literal, slice const, range, Vec<String>, [&str; N], &[&str], [String; N], Vec<Cow<str>>, [f64; N], chars (also with a NUL among them: such paths cannot be written on a command line and are decided by the family runs only), a Debug-only type; lengths 0,1,2,3,4,21,30 (the larger ones and several kinds in the thorough zoo only); types x consts in both generic orders",
          "filters keeping strict subsets: every single argument and every all-but-one for the first 6 labels, under 6 sorts for the full list (2 sorts per subset in quick)",
      ],
      technique="bounded-exhaustive black-box runs of the generated crate: every case alone via --exact, whole families under every sort x argument-subset filter, comparing the label with the value / type / const the body received (invocation log) and display order with invocation order",
